@@ -105,6 +105,35 @@ def find_guards(r, b, gs, c, fn, kinds, dist):
                     kind, "rejects" if tv[k] else "accepts", k[0], k[1]), where)
             need[kind] = True       # located (and reported): do not report it as missing as well
             gblocks.append(bb)
+    # `bound.checked_sub(dist)` tested for None is the same guard: None exactly when dist > bound
+    tmb = Terms(b)
+    for blk in b.blocks:
+        if blk.cleanup or blk.term.k != "switch" or blk.idx not in c.reach:
+            continue
+        t = tmb.of_operand(blk.term.discr)
+        if not (t[0] == "discr" and isinstance(t[1], tuple) and t[1] and t[1][0] == "call" and str(t[1][1]).endswith("checked_sub")
+                and len(t[1][2]) == 2):
+            continue
+        bound, dterm = t[1][2]
+        if not (dterm[0] == "arg" and dterm[2] == dist) or pat.has_arg(bound, dist):
+            continue
+        kind = None
+        if pat.has_field(bound, "dict_size") and not pat.has_field(bound, "cursor"):
+            kind = "dict_size"
+        elif pat.has_field(bound, "len") or (pat.has_call(bound, "Vec::len") and pat.has_field(bound, "buf")):
+            kind = "produced"
+        if kind is None or kind not in need:
+            continue
+        edges = dict(blk.term.targets)
+        none_e = edges.get(0)
+        some_e = edges.get(1, blk.term.otherwise)
+        if none_e is None or flow.reaches_ok(b, none_e) or not flow.reaches_ok(b, some_e):
+            continue
+        need[kind] = True
+        gblocks.append(blk.idx)
+        if r is not None:
+            r.sites += 1
+            r.ok("evaluation", {"fn": fn, "guard": "%s.checked_sub(dist) is None exactly when dist > %s: Err" % (kind, kind)})
     return need, gblocks
 
 
@@ -229,7 +258,8 @@ def rule_offsets(facts):
     gets = [blk for blk in b.calls() if (flow.callee(blk.term) or "").endswith("LzCircularBuffer::get")]
     r.sites = len(gets)
     r.need("a get() in the copy loop", len(gets) >= 1)
-    wrap = any(pat.cmp_sides(t) and pat.cmp_sides(t)[0] == "Eq" and pat.has_field(t, "dict_size") and
+    # offset < dict_size before the step, so `== dict_size`, `>= dict_size` (and their negations) are the same test
+    wrap = any(pat.cmp_sides(t) and pat.cmp_sides(t)[0] in ("Eq", "Ge", "Ne", "Lt") and pat.has_field(t, "dict_size") and
                pat.has_op(t, ("Add",)) for (_, t, _, _) in gs)
     for blk in gets:
         a = tm.of_operand(blk.term.args[1])
